@@ -237,7 +237,14 @@ def one_case(ctx, r, desc):
             globs = [r.choice([p0, "*." + p0.rsplit(".", 1)[1], "**/" + p0.rsplit("/", 1)[-1]])]
         env_l = {}
         lst = run.run(ctx.bin("rel"), ["list"] + globs, root, stdin=diff, env=env_l, cpu_limit=30)
-        res = run.run(ctx.bin("rel"), globs, root, stdin=diff, env=env_l, cpu_limit=30)
+        # now and then the producer of the diff is slow: silent before its first byte or in the middle, pipe open all the while
+        pace = None
+        x = r.random()
+        if x < 0.04:
+            pace = [(r.choice([0, len(diff) // 2]), 2.6)]
+        elif x < 0.05:
+            pace = [(r.choice([0, len(diff) // 2]), 6.5)]
+        res = run.run(ctx.bin("rel"), globs, root, stdin=diff, env=env_l, cpu_limit=30, stdin_pauses=pace)
         scan = run.run(ctx.bin("rel"), [], root, stdin=None, env=dict(TERM), cpu_limit=30)
     finally:
         run.rm(root)
